@@ -301,7 +301,8 @@ def _run_shortcut(case, ex):
     inst = body(**{k: v for k, v in case["held"] if v is not None})
     loops = {k: v for k, v in case["loops"]}
     try:
-        df = (inst.zip if case["zip"] else inst.iter)(body_node_executor=ex, output_column_map=_colmap(case), **loops)
+        df = (inst.zip if case["style"] == "zip" else inst.iter)(body_node_executor=ex,
+                                                                 output_column_map=_colmap(case), **loops)
     except Exception as e:   # noqa: BLE001
         failed = type(e).__name__ in ("FailedChildError",)
         return _exc_obs(e, failed, [list(c) for c in LOG])
@@ -338,7 +339,7 @@ def model_term(case):
         held = cl(f"({cs(k)}, {'None' if v is None else '(Some ' + cz(v) + ')'})" for k, v in case["held"])
         loops = cl(f"({cs(k)}, {cl(cz(x) for x in v)})" for k, v in case["loops"])
         cm = cl(f"({cs(a)}, {cs(b)})" for a, b in (case["colmap"] or []))
-        return f"shortcut (toy {cn(case['body'])}) {cb(case['zip'])} {held} {loops} {cm} {_order(case)}"
+        return f"shortcut (toy {cn(case['body'])}) {cb(case['style'] == 'zip')} {held} {loops} {cm} {_order(case)}"
     steps = cl("(" + cl(f"({cs(k)}, {c_ival(v)})" for k, v in st["set"]) + ", " + _order(case) + ")"
                for st in case["steps"])
     return f"scenario {c_cfg(case)} {steps}"
@@ -412,31 +413,40 @@ def _ref_table(case, inputs):
     return rows, calls
 
 
-def _layout_ok(case):
-    """iterated/zipped/broadcast is a partition of the body's inputs, the column map renames existing
-    outputs, every looped label that is also an output is renamed"""
+def _as_layout(case):
+    """the loop layout of a case in the node vocabulary (shortcut cases: dataframe form, one run)"""
+    if case["kind"] == "shortcut":
+        ls = [k for k, _ in case["loops"]]
+        return {**case, "iter": ls if case["style"] == "iter" else [], "zip": ls if case["style"] == "zip" else [],
+                "df": True, "cache": True}
+    return case
+
+
+def _layout_problem(case):
+    """None when iterated/zipped/broadcast is a partition of the body's inputs with something looped, the
+    column map renames existing outputs and all resulting column names are distinct"""
     ins, outs, _ = SIG[case["body"]]
     labels = [l for l, _ in ins]
     looped = case["iter"] + case["zip"]
+    if not looped:
+        return "nothing-looped"
     if len(set(looped)) != len(looped) or any(l not in labels for l in looped):
-        return False
+        return "looped-not-inputs"
     cm = dict(case["colmap"] or [])
     if any(k not in outs for k in cm):
-        return False
+        return "map-nonexistent-output"
     if any(l in outs and l not in cm for l in looped):
-        return False
-    return True
+        return "unmapped-conflict"
+    cols = _columns(case)
+    if len(set(cols)) != len(cols):
+        return "column-clash"
+    return None
 
 
 def _columns(case):
     _, outs, _ = SIG[case["body"]]
     cm = dict(case["colmap"] or [])
     return case["iter"] + case["zip"] + [cm.get(o, o) for o in outs]
-
-
-def colmap_clash(case):
-    cols = _columns(case)
-    return len(set(cols)) != len(cols)
 
 
 def mixed_zero(case, inputs):
@@ -473,12 +483,13 @@ def _expected_children(case, rows_idx):
 
 def _oracle_steps(case, obs, shortcut=False):
     ins, outs, _ = SIG[case["body"]]
-    if not _layout_ok(case):
-        # not a loop layout: the library must refuse it somewhere, never return a table
-        flat = [obs] if shortcut else obs
-        for o in flat:
-            if o[0] == "ok":
-                return f"bad-layout-accepted: iter={case['iter']} zip={case['zip']} colmap={case['colmap']} returned a table"
+    problem = _layout_problem(case)
+    if problem:
+        # not a loop layout: the library must refuse it somewhere, never hand out a table
+        for o in ([obs] if shortcut else obs):
+            if o[0] == "ok" and o[1] != ["notdata"]:
+                return (f"bad-layout-accepted: {problem}: iter={case['iter']} zip={case['zip']} "
+                        f"colmap={case['colmap']} returned the table {o[1]}")
         return None
     if not shortcut:
         if obs[0] != ["created"]:
@@ -502,9 +513,6 @@ def _oracle_steps(case, obs, shortcut=False):
                 return f"table-from-nothing: run {k} returned a table although an input holds no data"
             continue
         rows, calls = ref
-        if colmap_clash(case):
-            return (f"column-clash: run {k}: the renaming makes column names {_columns(case)} collide; "
-                    f"got {'table ' + str(o[1][0]) if o[0] == 'ok' else o[1]}") if o[0] == "ok" or True else None
         if not rows:
             if o[0] == "exc" and o[1] == "ValueError" and o[4] == []:
                 continue
@@ -561,7 +569,7 @@ def oracle(case, obs):
     case = _tolist(case)
     if case["kind"] == "maps":
         return _oracle_maps(case, obs)
-    return _oracle_steps(case, obs, shortcut=case["kind"] == "shortcut")
+    return _oracle_steps(_as_layout(case), obs, shortcut=case["kind"] == "shortcut")
 
 
 # ---------------------------------------------------------------------------------------------
@@ -596,7 +604,8 @@ def known(case, obs, verdict):
             if nk and zk and (p == 0) != (z == 0):
                 return "C16-mixed-zero-length"
         return None
-    if sig == "column-clash" and colmap_clash(case) and _layout_ok(case):
+    case = _as_layout(case)
+    if sig == "bad-layout-accepted" and _layout_problem(case) == "column-clash":
         return "C16-column-map-clash"
     if sig == "zero-rows-failure":
         inputs = _inputs_at_failure(case, obs, verdict)
@@ -756,20 +765,11 @@ def _gen_shortcut(rng, p_exec):
         if l not in loops:
             held.append([l, rng.randint(-2, 9) if (d is None or rng.random() < 0.5) and rng.random() > 0.04 else d])
     colmap = [[o, "out_" + o] for o in outs if o in loops or rng.random() < 0.2]
-    case = {"kind": "shortcut", "body": b, "zip": rng.random() < 0.5, "held": held,
+    case = {"kind": "shortcut", "body": b, "style": rng.choice(["iter", "zip"]), "held": held,
             "loops": [[l, _gen_list(rng, _gen_len(rng, zero_ok=rng.random() < 0.15))] for l in loops],
-            "colmap": colmap, "iter": [], "zip_": []}
-    # the layout fields the oracle reads
-    case["iter"], case["zip_"] = ([], loops) if case["zip"] else (loops, [])
+            "colmap": colmap}
     _gen_exec(rng, case, p_exec)
     return case
-
-
-def _norm_shortcut(case):
-    """shortcut cases carry the loop layout under the names the node oracle uses"""
-    c = dict(case)
-    c["zip_flag"] = case["zip"]
-    return c
 
 
 def generate(ctx):
